@@ -47,21 +47,32 @@ META = {
         "uniquifier is the one that receives `[slug] = record`; (e) that registry is assigned an empty dict on every path of a "
         "method that render() always runs (not only in __init__); (f) no code reached from the token handlers or nested renders "
         "(nested functions included) empties the registry attribute or puts back an earlier snapshot of it. "
-        "R2 agreement with the plugin: (a) the slug regex as a parsed tree with canonical character-class order, flags and "
-        "replacement; (b) the ordered str-method pipeline of the default slug function (locals inlined, idempotent duplicates "
-        "collapsed, strip/lower commute); (c) the title is gathered - as a comprehension, an append/join loop, a `+=` loop or in a "
-        "package helper - from the same attribute of the same token types of the `.children` of the inline token at the same "
-        "offset, that gather is the only source of the title, and the slug function is applied to it; (d) the CLI installs the "
-        "plugin with the level it filters by (inclusive), that level does not pass through a truthiness default (`x or d`, "
-        "`x if x else d`: depth 0 is legal), its output filter tests heading-ness and depth only, it builds its parser "
-        "through the factory family both front ends use with no tokenisation-relevant configuration field overridden, and switches "
-        "no syntax rule afterwards (the command's helpers in cli.py are followed). "
+        "R2 slug function, title and CLI: (a) myst-anchors gives the renderer's own default slug function to anchors_plugin "
+        "(slug_func=...); if it relies on the plugin's slugify instead, the two pipelines must be equal operation by operation. "
+        "The regex of the default slug function (parsed tree with canonical class order, flags) equals the plugin's transcription "
+        "of GitHub's rule, and because Python's \\w lacks part of Ruby's \\p{Word}, the replacement must be a callable that keeps "
+        "combining marks (M*) and ZWNJ/ZWJ and deletes the rest; (b) the ordered str-method pipeline (locals inlined, idempotent "
+        "duplicates collapsed, strip/lower commute) is lower-case, spaces to hyphens, punctuation removed - compared with the "
+        "plugin's, whose own strip() is only required while the CLI still slugs with the plugin's function; (c) the title is "
+        "gathered - as a comprehension, an append/join loop, a `+=` loop or in a package helper - from the same attribute of the "
+        "same token types of the `.children` of the inline token at the same offset as in the plugin, that gather is the only "
+        "source of the title, and the slug function is applied to it; (d) the CLI installs the plugin with the level it filters "
+        "by (inclusive), that level does not pass through a truthiness default (depth 0 is legal), its output filter tests "
+        "heading-ness and depth only, its input is decoded with a BOM-dropping encoding (as the docutils/Sphinx readers do), it "
+        "builds its parser through the factory family both front ends use with no tokenisation-relevant configuration field "
+        "overridden, and switches no syntax rule afterwards (the command's helpers in cli.py are followed); (e) either the CLI "
+        "renders with a DocutilsRenderer subclass, or the slug computation is not reachable from nested_render_text - otherwise "
+        "headings in directive bodies / includes / substitutions consume suffixes the CLI never sees (reported: known finding). "
         "R3 the slug computation is dominated by a fact equivalent to level <= heading_anchors (guards at the call sites one level "
         "up are accepted), and the membership validator of MdParserConfig.heading_anchors (literal collection or constant range, "
         "evaluated statically) admits every depth 0-7 the property quantifies over. "
         "R4 the configured slug function wins when set and is called; the call is under except Exception/BaseException/bare; "
         "all paths through that handler issue exactly one HEADING_SLUG warning (helpers that warn on all their paths are "
-        "followed), no other warning, store nothing into the registry or node['slug'], and cannot raise. "
+        "followed), no other warning, store nothing into the registry or node['slug'], and cannot raise; the configuration field that "
+        "feeds the slug function is marked global_only and merge_file_level reaches setattr/validate_field only behind a negative "
+        "global_only test (a document cannot choose the function that computes its own anchors); a configuration object that is "
+        "stored on the Sphinx environment drops the slug function from its pickled state (__getstate__), so that a function "
+        "defined in conf.py can be configured at all. "
         "R5 the record stored per slug is classified by its expressions (LINE, ID, TITLE); its id is read from the registered "
         "`ids` of the node, not recomputed with make_id / a name normaliser (docutils de-duplicates registered ids); every reader of every publication "
         "channel of the registry (document attribute, env.metadata key, per-document map in an attribute) takes fields out by "
@@ -82,6 +93,8 @@ META = {
         "priority, C09); how the configuration values heading_anchors / heading_slug_func reach the renderer (validation and "
         "file-level merge: C13); survival of the published slug table across Sphinx parallel workers (C15); the warning issued "
         "for a missing cross-document anchor (C12); the CLI is compared with a default-configured render only (it cannot see conf.py); "
+        "whether the characters GitHub's \\p{Word} covers beyond M* and the two join controls (none known) are kept; the encoding of "
+        "text piped through stdin; "
         "the percent-encoding markdown-it applies to a link fragment before it reaches the resolver (non-ASCII anchors), and key "
         "transformations other than the tabled many-to-one mappings"
     ),
@@ -758,6 +771,87 @@ def _norm_tree(p):
     return p
 
 
+def _callable_keep(fi: FunctionInfo, fn: ast.FunctionDef) -> str:
+    """'keep:<sorted facts>' for a replacement callable of the form `m -> m.group() if <kept> else ""`, where <kept> is an
+    `or` of Unicode-category tests (`unicodedata.category(c).startswith("M")`, `... in ("Mn", ...)`) and `c in "<chars>"`."""
+    if len(fn.args.args) != 1:
+        raise Unsupported(f"{fi.fq}: replacement callable `{fn.name}` not understood")
+    marg = fn.args.args[0].arg
+    env: dict[str, ast.expr] = {}
+    ret = None
+    for st in fn.body:
+        if isinstance(st, ast.Expr) and isinstance(st.value, ast.Constant):
+            continue
+        if isinstance(st, ast.Assign) and len(st.targets) == 1 and isinstance(st.targets[0], ast.Name):
+            env[st.targets[0].id] = st.value
+            continue
+        if isinstance(st, ast.Return) and st.value is not None:
+            ret = st.value
+            break
+        raise Unsupported(f"{fi.fq}: statement in the replacement callable `{fn.name}` not understood: {short(st, 40)}")
+
+    def res(e: ast.expr, d: int = 0) -> ast.expr:
+        while isinstance(e, ast.Name) and e.id in env and d < 6:
+            e, d = env[e.id], d + 1
+        return e
+
+    def is_char(e: ast.expr) -> bool:
+        e = res(e)
+        if isinstance(e, ast.Call) and isinstance(e.func, ast.Attribute) and e.func.attr == "group" and isinstance(e.func.value, ast.Name) and e.func.value.id == marg:
+            return not e.args or (len(e.args) == 1 and isinstance(e.args[0], ast.Constant) and e.args[0].value == 0)
+        return isinstance(e, ast.Subscript) and isinstance(e.value, ast.Name) and e.value.id == marg and isinstance(e.slice, ast.Constant) and e.slice.value == 0
+
+    ret = res(ret) if ret is not None else None
+    if not (isinstance(ret, ast.IfExp) and is_char(ret.body) and isinstance(ret.orelse, ast.Constant) and ret.orelse.value == ""):
+        raise Unsupported(f"{fi.fq}: replacement callable `{fn.name}` is not `<match> if <kept> else ''`")
+    facts_: set[str] = set()
+
+    def kept(t: ast.expr) -> None:
+        t = res(t)
+        if isinstance(t, ast.BoolOp) and isinstance(t.op, ast.Or):
+            for v in t.values:
+                kept(v)
+            return
+        if isinstance(t, ast.Call) and isinstance(t.func, ast.Attribute) and t.func.attr == "startswith" and len(t.args) == 1 and isinstance(t.args[0], ast.Constant):
+            c = t.func.value
+            if isinstance(c, ast.Call) and fi.module.resolve(dotted(c.func) or "") == "unicodedata.category" and len(c.args) == 1 and is_char(c.args[0]):
+                facts_.add(f"cat:{t.args[0].value}*")
+                return
+        if isinstance(t, ast.Compare) and len(t.ops) == 1 and isinstance(t.ops[0], ast.In):
+            rhs = t.comparators[0]
+            if is_char(t.left) and isinstance(rhs, ast.Constant) and isinstance(rhs.value, str):
+                for ch in rhs.value:
+                    facts_.add(f"U+{ord(ch):04X}")
+                return
+            if is_char(t.left) and isinstance(rhs, (ast.Tuple, ast.List, ast.Set)) and all(isinstance(x, ast.Constant) and isinstance(x.value, str) and len(x.value) == 1 for x in rhs.elts):
+                for x in rhs.elts:
+                    facts_.add(f"U+{ord(x.value):04X}")
+                return
+            lc = t.left
+            if isinstance(lc, ast.Call) and fi.module.resolve(dotted(lc.func) or "") == "unicodedata.category" and is_char(lc.args[0]) and isinstance(rhs, (ast.Tuple, ast.List, ast.Set)):
+                for x in rhs.elts:
+                    if not (isinstance(x, ast.Constant) and isinstance(x.value, str)):
+                        raise Unsupported(f"{fi.fq}: category list in `{fn.name}` not literal")
+                    facts_.add(f"cat:{x.value}")
+                return
+        raise Unsupported(f"{fi.fq}: keep-condition of the replacement callable not understood: {short(t, 50)}")
+
+    kept(ret.test)
+    return "keep:" + ",".join(sorted(facts_))
+
+
+def _keeps_word_chars(repl: str) -> list[str]:
+    """What of Ruby's \\p{Word} beyond Python's \\w a replacement fails to keep: combining marks (M*) and ZWNJ/ZWJ."""
+    facts_ = set(repl[5:].split(",")) if repl.startswith("keep:") else set()
+    missing = []
+    if not ("cat:M*" in facts_ or {"cat:Mn", "cat:Mc", "cat:Me"} <= facts_):
+        missing.append("combining marks (categories Mn/Mc/Me)")
+    for cp, nm in (("U+200C", "ZERO WIDTH NON-JOINER"), ("U+200D", "ZERO WIDTH JOINER")):
+        if cp not in facts_:
+            missing.append(nm)
+    return missing
+
+
 def slug_pipeline(fi: FunctionInfo) -> list[tuple]:
     m = fi.module
     if fi.is_lambda or len(fi.params) != 1:
@@ -769,6 +863,16 @@ def slug_pipeline(fi: FunctionInfo) -> list[tuple]:
             return m.eval_const(e)
         except Unsupported:
             raise Unsupported(f"{fi.fq}: argument is not a literal: {short(e, 40)}") from None
+
+    nested = {st.name: st for st in fi.node.body if isinstance(st, ast.FunctionDef)}
+
+    def repl_of(e: ast.expr) -> str:
+        """Replacement of a regex substitution: a literal, or 'keep:...' for a callable that keeps some matches."""
+        if isinstance(e, ast.Name) and e.id in nested:
+            return _callable_keep(fi, nested[e.id])
+        if isinstance(e, ast.Lambda):
+            raise Unsupported(f"{fi.fq}: lambda replacement not understood")
+        return const(e)
 
     def sym(e: ast.expr) -> list[tuple]:
         if isinstance(e, ast.Name):
@@ -782,7 +886,7 @@ def slug_pipeline(fi: FunctionInfo) -> list[tuple]:
             if full == "re.sub":
                 if len(e.args) < 3 or any(k.arg != "flags" for k in e.keywords) or len(e.args) > 3:
                     raise Unsupported(f"{fi.fq}: re.sub call form not understood")
-                return sym(e.args[2]) + [_regex_op(const(e.args[0]), _flags_value(kwarg(e, "flags"), m), const(e.args[1]), e.args[0])]
+                return sym(e.args[2]) + [_regex_op(const(e.args[0]), _flags_value(kwarg(e, "flags"), m), repl_of(e.args[1]), e.args[0])]
             if isinstance(f, ast.Attribute):
                 if f.attr == "sub" and isinstance(f.value, ast.Name) and f.value.id not in env and f.value.id in m.const_nodes:
                     cn = m.const_nodes[f.value.id]
@@ -791,7 +895,7 @@ def slug_pipeline(fi: FunctionInfo) -> list[tuple]:
                     if len(e.args) != 2 or e.keywords:
                         raise Unsupported(f"{fi.fq}: pattern.sub call form not understood")
                     fl = cn.args[1] if len(cn.args) > 1 else kwarg(cn, "flags")
-                    return sym(e.args[1]) + [_regex_op(const(cn.args[0]), _flags_value(fl, m), const(e.args[0]), cn.args[0])]
+                    return sym(e.args[1]) + [_regex_op(const(cn.args[0]), _flags_value(fl, m), repl_of(e.args[0]), cn.args[0])]
                 if f.attr in _STR_METHODS and not e.keywords:
                     return sym(f.value) + [(f.attr, tuple(const(a) for a in e.args), e)]
             raise Unsupported(f"{fi.fq}: call outside the str/regex pipeline subset: {short(e, 50)}")
@@ -800,6 +904,8 @@ def slug_pipeline(fi: FunctionInfo) -> list[tuple]:
     for st in fi.node.body:
         if isinstance(st, ast.Expr) and isinstance(st.value, ast.Constant):
             continue
+        if isinstance(st, ast.FunctionDef):
+            continue  # local helper (e.g. the replacement callable of the regex substitution)
         if isinstance(st, ast.Assign) and len(st.targets) == 1 and isinstance(st.targets[0], ast.Name):
             env[st.targets[0].id] = sym(st.value)
             continue
@@ -839,6 +945,11 @@ def _normal_order(ops: list[tuple]) -> list[tuple]:
                 out[i], out[i + 1] = b, a
                 changed = True
     return out
+
+
+def _normal_order_ops(ops: list[tuple]) -> list[tuple]:
+    """Operations in canonical order (see _normal_order), as (name, args...) value tuples wrapped like ops."""
+    return [v + (None,) * 3 for v in _normal_order(ops)]
 
 
 def _default_slug_func(corpus: Corpus) -> tuple[FunctionInfo, dict]:
@@ -1069,7 +1180,7 @@ def _fp_val(fp: dict) -> dict:
 
 @rule("C10.R2")
 def r2_sibling_agreement(corpus: Corpus, rep: Report, tier: str):
-    rep.rule("C10.R2", "slug regex, str pipeline and title construction agree with mdit_py_plugins.anchors; the CLI filters by the level it configures and tokenises like a default-configured render")
+    rep.rule("C10.R2", "the CLI slugs with the renderer's default function; regex/str pipeline follow the documented GitHub rule (marks and joiners kept); title construction agrees with mdit_py_plugins.anchors; the CLI filters by its level, drops a BOM and tokenises like a default-configured render; nested headings")
     sib = _sibling(corpus, rep)
     dfi, _sel = _default_slug_func(corpus)
     sfi = _sibling_default_slug_func(sib)
@@ -1077,27 +1188,73 @@ def r2_sibling_agreement(corpus: Corpus, rep: Report, tier: str):
     mine = slug_pipeline(dfi)
     theirs = slug_pipeline(sfi)
     site = dfi.site()
+    # which slug function does the CLI give to the plugin?  (none: the plugin's own `slugify`)
+    cli, pa, _fam, uf, use = _cli_use(corpus)
+    sf_arg = kwarg(use, "slug_func")
+    cli_func: FunctionInfo | None = None
+    if sf_arg is not None:
+        d_ = dotted(sf_arg)
+        cli_func = corpus.find_function(cli.resolve(d_)) if d_ else None
+        if cli_func is None:
+            raise Unsupported(f"{cli.site(sf_arg)}: slug function given to anchors_plugin by the CLI not understood: {short(sf_arg, 40)}")
+    wired = cli_func is not None and cli_func.fq == dfi.fq
+    kcli = f"{pa.fq}|CLI slugs with the renderer's default slug function"
+    if wired:
+        rep.ok("C10.R2", kcli, cli.site(use), f"anchors_plugin(slug_func={dfi.qualname})")
+        reference = [o for o in theirs if o[0] != "strip"]  # the plugin's own strip() never runs; the documented rule has none
+        ref_name = f"the documented rule as transcribed in the plugin's {sfi.qualname} (lower-case, spaces to hyphens, punctuation removed)"
+    else:
+        other = slug_pipeline(cli_func) if cli_func is not None else theirs
+        ref_name = f"{cli_func.qualname if cli_func is not None else 'the plugin ' + sfi.qualname}, which myst-anchors slugs with"
+        reference = other
+        if [_op_val(o) for o in _normal_order_ops(mine)] == [_op_val(o) for o in _normal_order_ops(other)]:
+            rep.ok("C10.R2", kcli, cli.site(use), f"myst-anchors slugs with {ref_name.split(',')[0]}: same operations as {dfi.qualname}")
+        else:
+            rep.violation(
+                "C10.R2",
+                kcli,
+                cli.site(use),
+                f"myst-anchors slugs with {ref_name.split(',')[0]} ({' -> '.join(_op_text(x) for x in other)}) while the renderer's default is {dfi.qualname} "
+                f"({' -> '.join(_op_text(x) for x in mine)}): the printed anchors differ from the assigned ones (e.g. for combining marks / surrounding spaces)",
+            )
     # (a) regex
     rm = [o for o in mine if o[0] == "re.sub"]
-    rt = [o for o in theirs if o[0] == "re.sub"]
+    rt = [o for o in reference if o[0] == "re.sub"]
     if len(rm) != 1 or len(rt) != 1:
-        raise Unsupported(f"expected one regex substitution on each side (MyST {len(rm)}, plugin {len(rt)})")
+        raise Unsupported(f"expected one regex substitution on each side (MyST {len(rm)}, reference {len(rt)})")
     k = f"{dfi.fq}|slug regex"
     rsite = dfi.module.site(rm[0][5])
-    if _op_val(rm[0]) == _op_val(rt[0]):
-        rep.ok("C10.R2", k, rsite, f"regex tree, flags and replacement equal the plugin's ({rm[0][4]!r})")
+    same_repl = rm[0][3] == rt[0][3] or (wired and rm[0][3].startswith("keep:"))
+    if rm[0][1] == rt[0][1] and rm[0][2] == rt[0][2] and same_repl:
+        rep.ok("C10.R2", k, rsite, f"regex tree and flags equal the reference's ({rm[0][4]!r}); replacement {rm[0][3]!r}")
     else:
         what = []
         if rm[0][1] != rt[0][1]:
-            what.append(f"pattern {rm[0][4]!r} parses to a different tree than the plugin's {rt[0][4]!r}")
+            what.append(f"pattern {rm[0][4]!r} parses to a different tree than {rt[0][4]!r}")
         if rm[0][2] != rt[0][2]:
             what.append(f"flags {rm[0][2]} vs {rt[0][2]}")
-        if rm[0][3] != rt[0][3]:
+        if not same_repl:
             what.append(f"replacement {rm[0][3]!r} vs {rt[0][3]!r}")
-        rep.violation("C10.R2", k, rsite, "; ".join(what) + f" ({SIBLING}:{sfi.qualname})")
+        rep.violation("C10.R2", k, rsite, "; ".join(what) + f" ({ref_name})")
+    # GitHub removes what is outside Ruby's \\p{Word}; Python's \\w lacks the combining marks and the join controls
+    k = f"{dfi.fq}|punctuation removal keeps combining marks and joiners"
+    if any(tok in rm[0][1] for tok in ("CATEGORY_WORD",)):
+        lost = _keeps_word_chars(rm[0][3])
+        if lost:
+            rep.violation(
+                "C10.R2",
+                k,
+                rsite,
+                f"characters not matched by `\\w` are replaced by {rm[0][3]!r}: {', '.join(lost)} are deleted from the anchor although GitHub's rule ([^\\p{{Word}}\\- ]) keeps them - "
+                "'# \u0939\u093f\u0928\u094d\u0926\u0940' becomes '\u0939\u0928\u0926', Thai tone variants collapse into one slug",
+            )
+        else:
+            rep.ok("C10.R2", k, rsite, rm[0][3])
+    else:
+        raise Unsupported(f"{rsite}: slug regex is not built on \\w; kept character set not decided")
     # (b) str pipeline
     sm = [o for o in mine if o[0] != "re.sub"]
-    st = [o for o in theirs if o[0] != "re.sub"]
+    st = [o for o in reference if o[0] != "re.sub"]
     vm, vt = [_op_val(o) for o in sm], [_op_val(o) for o in st]
     missing = [o for o in st if _op_val(o) not in vm]
     extra = [o for o in sm if _op_val(o) not in vt]
@@ -1106,25 +1263,25 @@ def r2_sibling_agreement(corpus: Corpus, rep: Report, tier: str):
             "C10.R2",
             f"{dfi.fq}|title pipeline|missing {_op_text(o)}",
             site,
-            f"{dfi.qualname} applies {' -> '.join(_op_text(x) for x in mine) or 'nothing'}; the plugin ({sfi.qualname}, used by myst-anchors) applies "
-            f"{' -> '.join(_op_text(x) for x in theirs)}: `{_op_text(o)}` is missing",
+            f"{dfi.qualname} applies {' -> '.join(_op_text(x) for x in mine) or 'nothing'}; {ref_name} applies "
+            f"{' -> '.join(_op_text(x) for x in reference)}: `{_op_text(o)}` is missing",
         )
     for o in extra:
         rep.violation(
             "C10.R2",
             f"{dfi.fq}|title pipeline|extra {_op_text(o)}",
             dfi.module.site(o[2]),
-            f"{dfi.qualname} applies `{_op_text(o)}`, which the plugin ({sfi.qualname}) does not",
+            f"{dfi.qualname} applies `{_op_text(o)}`, which {ref_name} does not",
         )
     k = f"{dfi.fq}|title pipeline order"
     if not missing and not extra:
-        if _normal_order(mine) == _normal_order(theirs):
+        if [v[:2] if v[0] != "re.sub" else v[:1] for v in _normal_order(mine)] == [v[:2] if v[0] != "re.sub" else v[:1] for v in _normal_order(reference)]:
             rep.ok("C10.R2", k, site, " -> ".join(_op_text(x) for x in mine))
         else:
-            rep.error("C10.R2", f"{site}: same slug operations as the plugin in a different order ({' -> '.join(_op_text(x) for x in mine)}); equivalence not decided")
+            rep.error("C10.R2", f"{site}: same slug operations as the reference in a different order ({' -> '.join(_op_text(x) for x in mine)}); equivalence not decided")
     for o in sm:
         if o not in extra:
-            rep.ok("C10.R2", f"{dfi.fq}|title pipeline|{_op_text(o)}", dfi.module.site(o[2]), "also applied by the plugin")
+            rep.ok("C10.R2", f"{dfi.fq}|title pipeline|{_op_text(o)}", dfi.module.site(o[2]), "part of the documented rule")
     # (c) title construction
     cus = corpus.func(CUS)
     fp = title_fingerprint(cus, corpus)
@@ -1194,10 +1351,10 @@ def r2_sibling_agreement(corpus: Corpus, rep: Report, tier: str):
     rep.expect_min("C10.R2", 9, "regex, pipeline ops, six title fields, CLI level")
 
 
-def _r2_cli(corpus: Corpus, rep: Report, sib: Module) -> None:
+def _cli_use(corpus: Corpus):
+    """(cli module, print_anchors, its function family, function holding `.use(anchors_plugin ...)`, that call)."""
     cli = corpus.mod("cli")
     pa = cli.func("print_anchors")
-    rep.saw_function(pa.fq)
     # the command and the functions of the module it (transitively) calls, with their nested functions / lambdas
     g_ = get_callgraph(corpus)
     tops = [pa]
@@ -1218,7 +1375,12 @@ def _r2_cli(corpus: Corpus, rep: Report, sib: Module) -> None:
                     uses.append((f, c))
     if len(uses) != 1:
         raise Unsupported(f"{pa.fq}: expected one `.use(anchors_plugin, ...)`, found {len(uses)}")
-    uf, use = uses[0]
+    return cli, pa, fam, uses[0][0], uses[0][1]
+
+
+def _r2_cli(corpus: Corpus, rep: Report, sib: Module) -> None:
+    cli, pa, fam, uf, use = _cli_use(corpus)
+    rep.saw_function(pa.fq)
     rep.saw_call(cli.site(use))
     ap = sib.func("anchors_plugin")
     # plugin semantics: levels range(min_level, max_level + 1), min_level default 1
@@ -1233,8 +1395,8 @@ def _r2_cli(corpus: Corpus, rep: Report, sib: Module) -> None:
         and unparse(rng.args[1]) == "max_level + 1"
     ):
         raise Unsupported(f"{SIBLING}: anchors_plugin no longer selects range(min_level=1, max_level + 1)")
-    if any(k.arg in ("slug_func", "min_level") or k.arg is None for k in use.keywords) or len(use.args) > 1:
-        raise Unsupported(f"{cli.site(use)}: anchors_plugin installed with arguments other than max_level")
+    if any(k.arg in ("min_level",) or k.arg is None for k in use.keywords) or len(use.args) > 1:
+        raise Unsupported(f"{cli.site(use)}: anchors_plugin installed with arguments other than max_level / slug_func")
     mx = kwarg(use, "max_level")
     k = f"{pa.fq}|CLI anchor level vs filter level"
     if mx is None:
@@ -1301,6 +1463,7 @@ def _r2_cli(corpus: Corpus, rep: Report, sib: Module) -> None:
     else:
         rep.ok("C10.R2", k0, cli.site(cmp_), "no `x or default` / `x if x else default` on the level")
     _r2_cli_filter_conjuncts(rep, cli, pa, ff, cmp_)
+    _r2_cli_bom(rep, cli, pa, fam)
     bf = uf
     while bf.parent_func is not None:
         bf = bf.parent_func
@@ -1361,6 +1524,105 @@ def _field_default(corpus: Corpus, fld: str):
                 return ci.module.eval_const(v)
             raise Unsupported(f"default of MdParserConfig.{fld} not understood")
     raise Unsupported(f"MdParserConfig has no field {fld}")
+
+
+def _r2_cli_bom(rep: Report, cli: Module, pa: FunctionInfo, fam: list[FunctionInfo]) -> None:
+    """docutils' and Sphinx' readers drop a leading U+FEFF; a CLI that keeps it does not see a heading on line 1."""
+    k = f"{pa.fq}|CLI input is decoded without a byte order mark"
+    opens = []
+    for f in fam:
+        nodes_ = ast.walk(f.node.body) if f.is_lambda else walk_local(f.node, into_lambdas=False)
+        for n in nodes_:
+            if not isinstance(n, ast.Call):
+                continue
+            full = cli.resolve(dotted(n.func) or "")
+            last = full.split(".")[-1]
+            if full in ("argparse.FileType", "open", "io.open", "codecs.open") or last in ("read_text",):
+                mode = n.args[0] if (n.args and full == "argparse.FileType") else (n.args[1] if len(n.args) > 1 and full != "argparse.FileType" and last != "read_text" else kwarg(n, "mode"))
+                if isinstance(mode, ast.Constant) and isinstance(mode.value, str) and ("w" in mode.value or "a" in mode.value or "b" in mode.value):
+                    continue
+                opens.append(n)
+    if not opens:
+        raise Unsupported(f"{pa.fq}: how the CLI opens its input is not understood")
+    strips = any(
+        isinstance(c, ast.Constant) and isinstance(c.value, str) and "\ufeff" in c.value
+        for f in fam
+        for c in (ast.walk(f.node.body) if f.is_lambda else walk_local(f.node))
+    )
+    for n in opens:
+        enc = kwarg(n, "encoding")
+        if enc is None:
+            raise Unsupported(f"{cli.site(n)}: input opened without an explicit encoding")
+        if not (isinstance(enc, ast.Constant) and isinstance(enc.value, str)):
+            raise Unsupported(f"{cli.site(n)}: encoding of the CLI input is not a literal")
+        norm = enc.value.lower().replace("_", "-")
+        if norm in ("utf-8-sig", "utf8-sig") or strips:
+            rep.ok("C10.R2", k, cli.site(n), f"encoding={enc.value!r}" + (" and U+FEFF removed explicitly" if strips else ""))
+        elif norm in ("utf-8", "utf8", "u8"):
+            rep.violation(
+                "C10.R2",
+                k,
+                cli.site(n),
+                f"the input is decoded as {enc.value!r}: a file that starts with a byte order mark keeps U+FEFF in front of its first line, so `# Title` on line 1 is not a heading "
+                "for myst-anchors, although docutils and Sphinx (which drop the BOM) assign it the anchor `title`",
+            )
+        else:
+            raise Unsupported(f"{cli.site(n)}: encoding {enc.value!r} of the CLI input not judged")
+
+
+def _nested_context_names(nrt: FunctionInfo, corpus: Corpus) -> set[str]:
+    """Attributes of self / keys of self.md_env that nested_render_text (nested functions included) writes."""
+    out: set[str] = set()
+    fns = [nrt] + [f for f in nrt.module.functions.values() if f.qualname.startswith(nrt.qualname + ".") and not f.is_lambda]
+    for f in fns:
+        for n in walk_local(f.node):
+            tg = n.targets if isinstance(n, ast.Assign) else ([n.target] if isinstance(n, (ast.AnnAssign, ast.AugAssign)) else [])
+            for t in tg:
+                if isinstance(t, ast.Attribute) and isinstance(t.value, ast.Name) and t.value.id == "self":
+                    out.add(t.attr)
+                if isinstance(t, ast.Subscript) and isinstance(t.slice, ast.Constant) and isinstance(t.slice.value, str):
+                    out.add(t.slice.value)
+    return out
+
+
+def _r2_cli_nested_headings(corpus: Corpus, rep: Report, cli: Module, fcall: ast.Call | None) -> None:
+    """myst-anchors tokenises the file once; the renderer also slugs headings it reaches through nested renders
+    (directive bodies, includes, substitutions) in the same uniqueness history."""
+    g = get_callgraph(corpus)
+    for fi, call in _cus_call_sites(corpus):
+        if fi.cls is None:
+            continue
+        k = f"{fi.fq}|headings reached through nested renders share the slug history that myst-anchors cannot see"
+        site = fi.module.site(call)
+        # (1) the CLI lists what the MyST renderer assigned: its parser is built with a DocutilsRenderer (sub)class
+        if fcall is not None and len(fcall.args) >= 2:
+            rcls = corpus.find_class(cli.resolve(dotted(fcall.args[1]) or ""))
+            if rcls is not None and any(c.fq == fi.cls.fq for c in corpus.mro(rcls)):
+                rep.ok("C10.R2", k, cli.site(fcall), f"myst-anchors renders with {rcls.name}: it reports the anchors the renderer assigns")
+                continue
+        nrt = corpus.lookup_method(fi.cls, "nested_render_text")
+        if nrt is None or fi.fq not in g.reachable([nrt]):
+            rep.ok("C10.R2", k, site, "slug computation is not reachable from a nested render")
+            continue
+        marks = _nested_context_names(nrt, corpus)
+        guards_ = []
+        cfg = get_cfg(fi)
+        guards_ += [t for t, _pol in cfg.guards(cfg.stmt_of(call))]
+        for ufi, ucall in g.callers().get(fi.fq, []):
+            ucfg = get_cfg(ufi)
+            guards_ += [t for t, _pol in ucfg.guards(ucfg.stmt_of(ucall))]
+        ctx = [t for t in guards_ if {x.attr for x in ast.walk(t) if isinstance(x, ast.Attribute)} & marks or {x.value for x in ast.walk(t) if isinstance(x, ast.Constant) and isinstance(x.value, str)} & marks]
+        if ctx:
+            raise Unsupported(f"{fi.module.site(ctx[0])}: slug computation is guarded by nested-render state (`{short(ctx[0], 50)}`); whether nested headings are excluded is not decided")
+        rep.violation(
+            "C10.R2",
+            k,
+            site,
+            f"{fi.qualname} is reached from {nrt.qualname} (directive bodies, {{include}}, substitutions) and takes the next free suffix of the one per-document history, while "
+            "myst-anchors slugs the top-level markdown-it tokens only (a directive is an opaque fence): `# Setup`, a {note} containing `## Setup`, `## Setup` gives "
+            "setup, setup-1 (the rubric in the note), setup-2 in a build but setup, setup-1 from myst-anchors, so the printed anchor of the last heading links into the admonition",
+            [f"{nrt.module.site(nrt.node)} {nrt.qualname}", f"{site} {short(call, 50)}", f"{cli.rel} print_anchors: one markdown-it pass over the file text"],
+        )
 
 
 def _r2_cli_filter_conjuncts(rep: Report, cli: Module, pa: FunctionInfo, ff: FunctionInfo, cmp_: ast.Compare) -> None:
@@ -1463,6 +1725,7 @@ def _r2_cli_tokeniser(corpus: Corpus, rep: Report, cli: Module, pa: FunctionInfo
         raise Unsupported(f"{pa.fq}: several calls of {factory.qualname}")
     fcall = calls[0][0]
     rep.saw_call(cli.site(fcall))
+    _r2_cli_nested_headings(corpus, rep, cli, fcall)
     carg = arg_or_kw(fcall, 0, factory.params[0])
     if isinstance(carg, ast.Name):
         ds = _assigns_to(bf, carg.id)
@@ -1822,7 +2085,7 @@ def _is_broad(h: ast.ExceptHandler) -> bool:
 
 @rule("C10.R4")
 def r4_foreign_callable(corpus: Corpus, rep: Report, tier: str):
-    rep.rule("C10.R4", "configured slug function replaces the default only when set; its call is under `except Exception` -> exactly one HEADING_SLUG warning, no store, no raise")
+    rep.rule("C10.R4", "configured slug function replaces the default only when set; its call is under `except Exception` -> exactly one HEADING_SLUG warning, no store, no raise; the option is global-only and survives pickling of the Sphinx environment")
     cus = corpus.func(CUS)
     sel = slug_func_selection(corpus)
     # (a) selection orientation
@@ -1933,7 +2196,126 @@ def r4_foreign_callable(corpus: Corpus, rep: Report, tier: str):
             rep.ok("C10.R4", k, hsite)
         else:
             rep.violation("C10.R4", k, hsite, "a path through the failure handler still writes a slug record / node['slug']: the failure produces more than a warning")
+    _r4_global_only(corpus, rep)
+    _r4_picklable_config(corpus, rep)
     rep.expect_min("C10.R4", 2, "selection orientation and one call site (handler breadth; then warning count, store, raise)")
+
+
+def _slug_func_field(corpus: Corpus) -> tuple[str, ast.AnnAssign, "ClassInfo"]:
+    """Name and declaration of the configuration field whose value is handed to compute_unique_slug."""
+    names = set()
+    for fi, call in _cus_call_sites(corpus):
+        for a in list(call.args) + [kw.value for kw in call.keywords]:
+            if isinstance(a, ast.Attribute) and a.attr.endswith("slug_func"):
+                names.add(a.attr)
+    if len(names) != 1:
+        raise Unsupported(f"configuration field of the slug function not identified ({sorted(names)})")
+    fld = names.pop()
+    ci = corpus.cls("config.main:MdParserConfig")
+    for st in ci.node.body:
+        if isinstance(st, ast.AnnAssign) and isinstance(st.target, ast.Name) and st.target.id == fld:
+            return fld, st, ci
+    raise Unsupported(f"MdParserConfig has no field {fld}")
+
+
+def _field_metadata(st: ast.AnnAssign) -> dict[str, ast.expr]:
+    if isinstance(st.value, ast.Call):
+        md = kwarg(st.value, "metadata")
+        if isinstance(md, ast.Dict):
+            return {k.value: v for k, v in zip(md.keys, md.values) if isinstance(k, ast.Constant)}
+    return {}
+
+
+def _r4_global_only(corpus: Corpus, rep: Report) -> None:
+    """The slug function is imported from a dotted path and called with every heading text: only the global configuration
+    may name it, never a document's own front matter (whose anchors myst-anchors and other documents could not predict)."""
+    fld, st, ci = _slug_func_field(corpus)
+    m = ci.module
+    md = _field_metadata(st)
+    k = f"{ci.fq}.{fld}|slug function is a global-only option"
+    flag = md.get("global_only")
+    if isinstance(flag, ast.Constant) and flag.value is True:
+        rep.ok("C10.R4", k, m.site(flag))
+    else:
+        rep.violation(
+            "C10.R4",
+            k,
+            m.site(st),
+            f"`{fld}` is not marked global_only: a document can name any importable callable in its own `myst:` front matter (`{fld}: os.system` with the heading `# echo PWNED`); "
+            "it is imported and called with every heading text, and the document's anchors no longer match myst-anchors or the '#slug' links written for the configured function",
+        )
+    mfl = corpus.func("config.main:merge_file_level")
+    rep.saw_function(mfl.fq)
+    cfg = get_cfg(mfl)
+    k = f"{mfl.fq}|file-level merge refuses global_only fields"
+    applies = [
+        c
+        for c in walk_local(mfl.node)
+        if isinstance(c, ast.Call) and dotted(c.func) in ("setattr", "validate_field") and enclosing_loop(c, mfl) is not None
+    ]
+    if not applies:
+        raise Unsupported(f"{mfl.fq}: no setattr/validate_field inside the loop over the file-level values")
+    unguarded = []
+    for c in applies:
+        gs = cfg.guards(cfg.stmt_of(c))
+        ok = any(("global_only" in unparse(t)) and not pol for t, pol in gs)
+        odd = [t for t, pol in gs if "global_only" in unparse(t) and pol]
+        if odd:
+            raise Unsupported(f"{m.site(odd[0])}: global_only test with unexpected polarity")
+        if not ok:
+            unguarded.append(c)
+    if unguarded:
+        c = unguarded[0]
+        rep.violation(
+            "C10.R4",
+            k,
+            m.site(c),
+            f"`{short(c, 50)}` is reached for every field name of the front matter without a test of the field's global_only flag: `myst: {{{fld}: os.system}}` in a document is "
+            "validated (imported) and stored, so the document chooses the function that computes its own anchors",
+        )
+    else:
+        rep.ok("C10.R4", k, m.site(applies[0]), f"{len(applies)} store/validate call(s) behind `not field.metadata.get('global_only')`")
+
+
+def _r4_picklable_config(corpus: Corpus, rep: Report) -> None:
+    """Sphinx pickles the environment after reading; a config stored on it must not carry a callable that cannot be
+    pickled by reference (a function defined in conf.py), or no custom slug function from conf.py can ever be used."""
+    fld, st, ci = _slug_func_field(corpus)
+    if "Callable" not in unparse(st.annotation):
+        return
+    stored = []
+    for f in corpus.all_functions():
+        if f.is_lambda or not f.module.name.startswith("myst_parser.sphinx_ext"):
+            continue
+        for n in walk_local(f.node):
+            if isinstance(n, ast.Assign) and isinstance(n.value, ast.Call) and f.module.resolve(dotted(n.value.func) or "").endswith("config.main.MdParserConfig"):
+                for t in n.targets:
+                    if isinstance(t, ast.Attribute) and (dotted(t.value) or "").split(".")[-1] == "env":
+                        stored.append((f, n))
+    k = f"{ci.fq}|pickled state drops an unpicklable slug function"
+    if not stored:
+        rep.ok("C10.R4", k, ci.module.site(ci.node), "the configuration object is not stored on the Sphinx environment")
+        return
+    gs = ci.methods.get("__getstate__") or ci.methods.get("__reduce__") or ci.methods.get("__reduce_ex__")
+    handled = False
+    if gs is not None:
+        for n in walk_local(gs.node):
+            if isinstance(n, ast.Subscript) and isinstance(n.slice, ast.Constant) and n.slice.value == fld and isinstance(n.ctx, (ast.Store, ast.Del)):
+                handled = True
+            if isinstance(n, ast.Call) and isinstance(n.func, ast.Attribute) and n.func.attr == "pop" and n.args and isinstance(n.args[0], ast.Constant) and n.args[0].value == fld:
+                handled = True
+    f0, n0 = stored[0]
+    if handled:
+        rep.ok("C10.R4", k, gs.site(), f"{gs.qualname} replaces/removes `{fld}` in the pickled state")
+    else:
+        rep.violation(
+            "C10.R4",
+            k,
+            ci.module.site(ci.node),
+            f"{f0.qualname} stores the configuration on the Sphinx environment (`{short(n0, 50)}`), which Sphinx pickles after the reading phase, and {ci.name} pickles `{fld}` as is: "
+            "a `def myst_heading_slug_func(title)` in conf.py (as the documentation suggests) aborts the build with PicklingError, so a custom slug function defined there can never replace the default",
+            [f"{f0.module.site(n0)} {short(n0, 60)}"],
+        )
 
 
 def uniq_taken_param(corpus: Corpus) -> str:
@@ -2296,6 +2678,14 @@ def _check_reader(f: FunctionInfo, r: ast.AST, name: str, kinds: list[str], p_id
     # groups: (site node, label, {position: (use kinds, text)}, full arity or None)
     groups: list[tuple[ast.AST, str, dict[int, tuple[set[str], str]], int | None]] = []
 
+    # records written back into the table (`table[k] = (a, b, c)`): a field may be handed on at its own position
+    restores: dict[str, set[int]] = {}
+    for n in f.local_nodes():
+        if isinstance(n, ast.Assign) and isinstance(n.value, ast.Tuple) and any(isinstance(t, ast.Subscript) and isinstance(t.value, ast.Name) and t.value.id == var for t in n.targets):
+            for j, e in enumerate(n.value.elts):
+                if isinstance(e, ast.Name):
+                    restores.setdefault(e.id, set()).add(j)
+
     def name_uses(nm: str) -> set[str]:
         if nm == "_" or nm not in used:
             return {"unused"}
@@ -2304,6 +2694,8 @@ def _check_reader(f: FunctionInfo, r: ast.AST, name: str, kinds: list[str], p_id
             u.add("id")
         if nm in txn:
             u.add("text")
+        for j in restores.get(nm, ()):
+            u.add(f"restore:{j}")
         return u or {"unknown"}
 
     def unpack(target: ast.expr, where: ast.AST, label: str) -> None:
@@ -2347,6 +2739,32 @@ def _check_reader(f: FunctionInfo, r: ast.AST, name: str, kinds: list[str], p_id
     def record(expr: ast.AST) -> None:
         q = parent(expr)
         label = short(expr, 40)
+        if isinstance(expr, ast.Subscript) and isinstance(expr.ctx, ast.Store):
+            # a record written back by a reader (e.g. a refreshed title): same arity, title at the title position
+            if not (isinstance(q, ast.Assign) and isinstance(q.value, ast.Tuple)):
+                raise Unsupported(f"{f.module.site(expr)}: write into the slug table not understood: {short(q, 50)}")
+            elts = q.value.elts
+            kq = f"{f.fq}|record written back into {name} {label}"
+            if len(elts) != len(kinds):
+                rep.violation("C10.R5", kq, f.module.site(q), f"a record of {len(elts)} fields is written back, the writer stores {len(kinds)} ({kinds})")
+                return
+            problems = []
+            for j, e in enumerate(elts):
+                fresh_title = (isinstance(e, ast.Call) and (dotted(e.func) or "").split(".")[-1] in ("clean_astext", "astext")) or (
+                    isinstance(e, ast.Name) and _assigns_to(f, e.id) and all(isinstance(d, ast.Assign) and isinstance(d.value, ast.Call) and (dotted(d.value.func) or "").split(".")[-1] in ("clean_astext", "astext") for d in _assigns_to(f, e.id))
+                )
+                if fresh_title:
+                    if j != p_title:
+                        problems.append(f"a title text is written to position {j} ({kinds[j]} in the writer)")
+                elif isinstance(e, ast.Name) and e.id in restores:
+                    continue  # judged where the name was unpacked (must come from the same position)
+                else:
+                    raise Unsupported(f"{f.module.site(e)}: field {j} of the record written back not understood: {short(e, 40)}")
+            if problems:
+                rep.violation("C10.R5", kq, f.module.site(q), "; ".join(problems))
+            else:
+                rep.ok("C10.R5", kq, f.module.site(q), short(q.value, 60))
+            return
         if isinstance(q, ast.Assign) and q.value is expr and len(q.targets) == 1:
             t = q.targets[0]
             if isinstance(t, ast.Tuple):
@@ -2421,11 +2839,15 @@ def _check_reader(f: FunctionInfo, r: ast.AST, name: str, kinds: list[str], p_id
                 problems.append(f"position {i} ({kinds[i]} in the writer) goes to {text}, which is used as the reference id")
             if "text" in uses and i != p_title:
                 problems.append(f"position {i} ({kinds[i]} in the writer) goes to {text}, which is used as the link text")
+            for u_ in uses:
+                if u_.startswith("restore:") and int(u_[8:]) != i:
+                    problems.append(f"position {i} ({kinds[i]} in the writer) goes to {text}, which is written back at position {u_[8:]}")
+            handed_on = any(u_ == f"restore:{i}" for u_ in uses)
             if i == p_id and "id" not in uses:
                 if uses == {"unused"}:
                     if arity is not None:
                         problems.append(f"position {p_id} (the section id in the writer) is discarded: the reference cannot point at the heading")
-                elif "text" not in uses:
+                elif "text" not in uses and not handed_on:
                     undecided.append(f"position {p_id} (the section id) goes to {text}, whose use is not a recognised id sink (refid / make_refnode targetid)")
             if i == p_title and uses == {"unknown"}:
                 undecided.append(f"position {p_title} (the title) goes to {text}, whose use is not a recognised text sink")
@@ -2688,6 +3110,54 @@ def mutants(corpus: Corpus):
         cn = parent(node)
         if isinstance(cn, ast.Call) and len(cn.args) == 1 and not cn.keywords:
             out.append(Mutant("c10-regex-ascii-flag", "C10.R2", dfi.module.rel, splice(dsrc, node, segment(dsrc, node) + ", re.ASCII"), expect="slug regex"))
+    # revert 511da59: marks / joiners deleted again; the CLI falls back to the plugin's own slugify
+    subcall = find_node(dfi, lambda n: isinstance(n, ast.Call) and isinstance(n.func, ast.Attribute) and n.func.attr == "sub" and len(n.args) == 2 and isinstance(n.args[0], ast.Name))
+    if subcall is not None and rx and rx[0][3].startswith("keep:"):
+        out.append(Mutant("c10-revert-511da59-marks-deleted", "C10.R2", dfi.module.rel, splice(dsrc, subcall.args[0], '""'), expect="combining marks"))
+        keepdef = find_node(dfi, lambda n: isinstance(n, ast.Compare) and isinstance(n.ops[0], ast.In) and isinstance(n.comparators[0], ast.Constant) and "\u200d" in str(n.comparators[0].value))
+        if keepdef is not None:
+            out.append(Mutant("c10-joiners-deleted", "C10.R2", dfi.module.rel, splice(dsrc, keepdef, "False"), expect="combining marks"))
+    try:
+        cli_, pa_, _fam_, _uf_, use_ = _cli_use(corpus)
+        sfk = [kw for kw in use_.keywords if kw.arg == "slug_func"]
+        if sfk:
+            seg_ = segment(cli_.src, use_)
+            kwseg = "slug_func=" + segment(cli_.src, sfk[0].value)
+            new_ = seg_.replace(", " + kwseg, "").replace(kwseg + ", ", "")
+            if new_ != seg_:
+                out.append(Mutant("c10-revert-511da59-cli-uses-plugin-slugify", "C10.R2", cli_.rel, splice(cli_.src, use_, new_), expect="renderer's default slug function"))
+        # revert 8355bc2: input decoded as plain utf8
+        enc = find_node(pa_, lambda n: isinstance(n, ast.Constant) and isinstance(n.value, str) and n.value.lower().replace("_", "-") in ("utf-8-sig", "utf8-sig"))
+        if enc is not None:
+            out.append(Mutant("c10-revert-8355bc2-bom-kept", "C10.R2", cli_.rel, splice(cli_.src, enc, '"utf8"'), expect="byte order mark"))
+    except Unsupported:
+        pass
+    # revert 4dae2c7: front matter may set global-only options again
+    cmn0 = corpus.mod("config.main")
+    mfl = cmn0.functions.get("merge_file_level")
+    if mfl is not None:
+        gif = find_node(mfl, lambda n: isinstance(n, ast.If) and "global_only" in unparse(n.test))
+        if gif is not None:
+            out.append(Mutant("c10-revert-4dae2c7-global-only-ignored", "C10.R4", cmn0.rel, splice(cmn0.src, gif.test, "False"), expect="refuses global_only"))
+    try:
+        fld_, fst_, ci0 = _slug_func_field(corpus)
+        flag_ = _field_metadata(fst_).get("global_only")
+        if flag_ is not None:
+            out.append(Mutant("c10-slug-func-not-global-only", "C10.R4", cmn0.rel, splice(cmn0.src, flag_, "False"), expect="global-only option"))
+        # revert c6e9713: the config pickles its slug function again
+        gs_ = ci0.methods.get("__getstate__")
+        if gs_ is not None:
+            nm_off = gs_.node
+            line = cmn0.lines[nm_off.lineno - 1]
+            col = line.index("__getstate__")
+            lines_ = cmn0.src.splitlines(keepends=True)
+            lines_[nm_off.lineno - 1] = line[:col] + "_unused_getstate" + line[col + len("__getstate__"):] + ("\n" if lines_[nm_off.lineno - 1].endswith("\n") else "")
+            out.append(Mutant("c10-revert-c6e9713-getstate-dropped", "C10.R4", cmn0.rel, "".join(lines_), expect="pickled state"))
+            stn = find_node(gs_, lambda n: isinstance(n, ast.Assign) and isinstance(n.targets[0], ast.Subscript) and isinstance(n.targets[0].slice, ast.Constant) and n.targets[0].slice.value == fld_)
+            if stn is not None:
+                out.append(Mutant("c10-getstate-keeps-slug-func", "C10.R4", cmn0.rel, splice(cmn0.src, stn, "pass"), expect="pickled state"))
+    except Unsupported:
+        pass
     strip = [o for o in pipe if o[0] == "strip"]
     if strip:
         c = strip[0][2]
